@@ -4,7 +4,7 @@ from __future__ import annotations
 from vf import cal
 from vf.symx import AND, OR, NOT, IMPLIES, IFF, ite, PathAbort
 from .common import (sym_wall, make_zone, resolve_wall, wall_s, off_seconds, fields, sym_offset, valid_source,
-                     native_triple, td_us, mixed_amount)
+                     native_triple, td_us, mixed_amount, cut)
 
 ID = "C14"
 FUNCTIONS = [
@@ -47,12 +47,13 @@ def roundtrip(ctx, obj, how):
         if how.startswith("pickle"):
             return pickle.loads(pickle.dumps(obj, int(how[6:])))
         return copy.copy(obj) if how == "copy" else copy.deepcopy(obj)
-    if how == "deepcopy":
+    if how == "deepcopy" and hasattr(obj, "__deepcopy__"):
         return obj.__deepcopy__({})
+    # (copy.deepcopy without __deepcopy__ goes through __reduce_ex__(4) and deep-copies the arguments)
     p = int(how[6:]) if how.startswith("pickle") else 4
     red = obj.__reduce_ex__(p)
     f, args = red[0], red[1]
-    if how.startswith("pickle"):
+    if how.startswith("pickle") or how == "deepcopy":
         # nested tzinfo objects travel through their own reduction; nested pendulum values likewise
         def conv(a):
             if isinstance(a, ctx.dt.tzinfo):
@@ -129,7 +130,18 @@ def duration(ctx, how, neg):
     ctx.observe("r", acc(r) + list(native_triple(ctx, r)))
 
 
+def _no_breakdown(d1, d2):
+    import sys
+    return sys.modules["pendulum._helpers"].PreciseDiff(0, 0, 0, 0, 0, 0, 0, 0)
+
+
 def interval(ctx, how, kind, absolute, ylo, yhi):
+    # CUT: the year/month/day breakdown (precise_diff) is C06's subject; endpoints, flag and length are claimed here
+    with cut(ctx, "pendulum.interval", "precise_diff", _no_breakdown):
+        return _interval(ctx, how, kind, absolute, ylo, yhi)
+
+
+def _interval(ctx, how, kind, absolute, ylo, yhi):
     P = ctx.P
     a, tzA, TsA, offsA, ua, usa = valid_source(ctx, kind, ylo, yhi, p="a")
     ya, ma, da, ha, mia, sa, usb = sym_wall(ctx, "b", ylo, yhi)
